@@ -179,7 +179,7 @@ fn node_write_leaf_layout() {
 }
 
 // ---- the code's own reader inverts the writer (decode(encode(n)) == n)
-// @ob props=C01,C15 tier=thorough cap=1200 mem=20 fns=Page::write_node,Node::from_page,Leaf::from_leaf,Page::leaf_elements,LeafElement::key,LeafElement::value,BucketMeta::from bound="same 3-entry leaf node, all bytes symbolic" unwind=17
+// @ob props=C01,C15 tier=parked cap=1200 mem=20 fns=Page::write_node,Node::from_page,Leaf::from_leaf,Page::leaf_elements,LeafElement::key,LeafElement::value,BucketMeta::from bound="same 3-entry leaf node, all bytes symbolic" unwind=17
 #[kani::proof]
 #[kani::unwind(17)]
 fn node_write_leaf_decode() {
@@ -612,7 +612,7 @@ fn node_spill_branch_root_fits() {
 // ---- C01-Ob5 / C05: Node::spill of a root that has to be split: every piece is written to its own run, a new
 //      root branch is created over them (first key and page of every piece, in order), written, and reported;
 //      the old page -- and the page of the superseded first write -- are pending, once each
-// @ob props=C05,C01 tier=thorough cap=1500 mem=24 fns=Node::spill,Node::split,Node::write,Node::allocate,Branch::from_node,InnerBucket::new_node,TxFreelist::allocate,TxFreelist::free,Page::write_node bound="root branch node with 5 entries (16-byte keys, symbolic), no materialised children, backed by page 7; page size 128; high-water mark 20: two pieces (the second spans two pages) and a new root" unwind=9
+// @ob props=C05,C01 tier=parked cap=1500 mem=24 fns=Node::spill,Node::split,Node::write,Node::allocate,Branch::from_node,InnerBucket::new_node,TxFreelist::allocate,TxFreelist::free,Page::write_node bound="root branch node with 5 entries (16-byte keys, symbolic), no materialised children, backed by page 7; page size 128; high-water mark 20: two pieces (the second spans two pages) and a new root" unwind=9
 #[kani::proof]
 #[kani::unwind(9)]
 fn node_spill_branch_root_splits() {
